@@ -346,6 +346,11 @@ CHECKS["C13"]["text"] += (" util.validate_intervals, intervals_to_durations, int
                           "with the inverse dict) and generate_labels, their `for` loops as structurally recursive definitions.")
 CHECKS["C14"]["text"] += (" Valid annotation objects are scored a second time by the same and by other entry points of the task "
                           "(a call that damages its input makes the next call reject a valid annotation).")
+CHECKS["C14"]["text"] += (" Twenty validators (util.validate_events / validate_intervals / validate_frequencies and the validate functions "
+                          "of beat, onset, tempo, segment, alignment, melody, transcription(+velocity), multipitch, hierarchy, pattern, "
+                          "separation) are regenerated from the source's AST on every run (lean/MirGen/Validators.lean) and proved equal "
+                          "to the hand-written validator model for all arrays (Props/C14_GenVal.lean), so the accept/reject "
+                          "characterisations are theorems about the code as translated.")
 CHECKS["C15"]["text"] += (" Histories include evaluate() of several tasks with non-default metric keywords (keyword routing must "
                           "not depend on which same-named metric of another task ran before).")
 CHECKS["C18"]["text"] += (" Call sequences: consecutive resampling / metrics calls whose estimate time bases share length and end "
